@@ -9,14 +9,14 @@ import (
 
 // MatchResult is the outcome of checking one connection against the model.
 type MatchResult struct {
-	OK      bool
-	Loose   bool   // some branch stopped judging (property silent)
-	Rule    string // violation class when !OK
-	Detail  string
-	Sig     string
-	OutIdx  []int  // per client message: number of backend messages expected to be out after it (accepted branch)
-	Depth   int    // client messages judged
-	States  map[string]struct{}
+	OK     bool
+	Loose  bool   // some branch stopped judging (property silent)
+	Rule   string // violation class when !OK
+	Detail string
+	Sig    string
+	OutIdx []int // per client message: number of backend messages expected to be out after it (accepted branch)
+	Depth  int   // client messages judged
+	States map[string]struct{}
 }
 
 type matcher struct {
